@@ -25,11 +25,17 @@ pub struct Case {
     pub yields_before: Vec<u8>,
     /// yields after the last push, before the producer completes
     pub yields_after: u8,
-    /// 0: `DataStream::new` (queue handle); 1: a hand-written `Stream` converted with `DataStream::from`
+    /// 0: `DataStream::new` (queue handle); 1: a hand-written `Stream` converted with `DataStream::from`; 2 / 3: a queue /
+    /// a hand-written stream behind `StreamExt::filter`; 4: hand-written `.chain(queue)`; 5: a stream of the application's own
+    /// `sse::Data` type; 6: a `Response` built by the handler (`with_stream`, `set_stream_raw`); 7: `once(..).chain(..)`
     pub kind: u8,
     /// the sink accepts at most this many bytes per `write` call (None: everything at once)
     #[serde(default)]
     pub short_write: Option<u16>,
+    /// kinds with a filter: number of items the filter rejects that the producer emits before message i (last entry:
+    /// after the last message)
+    #[serde(default)]
+    pub rejects: Vec<u8>,
 }
 
 thread_local! {
@@ -51,28 +57,26 @@ impl Future for YieldN {
     }
 }
 
-struct Scripted {
-    case: Case,
-    next: usize,
+/// a hand-written stream: item i after `items[i].0` Pending polls, then `after` Pending polls, then the end
+struct Scripted<T> {
+    items: std::collections::VecDeque<(u8, T)>,
     yielded: u8,
     after: u8,
 }
-impl ohkami::util::Stream for Scripted {
-    type Item = String;
-    fn poll_next(mut self: Pin<&mut Self>, cx: &mut Context<'_>) -> Poll<Option<String>> {
-        let i = self.next;
-        if i < self.case.messages.len() {
-            let want = self.case.yields_before.get(i).copied().unwrap_or(0);
-            if self.yielded < want {
-                self.yielded += 1;
+impl<T: Unpin> ohkami::util::Stream for Scripted<T> {
+    type Item = T;
+    fn poll_next(mut self: Pin<&mut Self>, cx: &mut Context<'_>) -> Poll<Option<T>> {
+        let this = &mut *self;
+        if let Some((want, _)) = this.items.front() {
+            if this.yielded < *want {
+                this.yielded += 1;
                 cx.waker().wake_by_ref();
                 return Poll::Pending;
             }
-            self.yielded = 0;
-            self.next += 1;
-            Poll::Ready(Some(self.case.messages[i].clone()))
-        } else if self.after < self.case.yields_after {
-            self.after += 1;
+            this.yielded = 0;
+            Poll::Ready(this.items.pop_front().map(|(_, m)| m))
+        } else if this.after > 0 {
+            this.after -= 1;
             cx.waker().wake_by_ref();
             Poll::Pending
         } else {
@@ -81,18 +85,129 @@ impl ohkami::util::Stream for Scripted {
     }
 }
 
+/// a message type of the application's own (`sse::Data`): what goes on the wire is its `encode()`
+#[derive(Clone)]
+struct Msg(String);
+impl ohkami::sse::Data for Msg {
+    fn encode(self) -> String {
+        self.0
+    }
+}
+impl ohkami::openapi::Schema for Msg {
+    fn schema() -> impl Into<ohkami::openapi::schema::SchemaRef> {
+        ohkami::openapi::string()
+    }
+}
+
+const DROP: char = '\0';
+fn rejected(s: &String) -> bool {
+    s.starts_with(DROP)
+}
+
+/// the items the underlying producer emits: the messages, and (kinds with a filter) items the filter rejects in between
+fn items(case: &Case, with_rejects: bool) -> (Vec<(u8, String)>, u8) {
+    let mut v = Vec::new();
+    for (i, m) in case.messages.iter().enumerate() {
+        let y = case.yields_before.get(i).copied().unwrap_or(0);
+        let r = if with_rejects { case.rejects.get(i).copied().unwrap_or(0) } else { 0 };
+        for k in 0..r {
+            v.push((if k == 0 { y } else { 0 }, format!("{DROP}rejected {i}.{k}")));
+        }
+        v.push((if r == 0 { y } else { 0 }, m.clone()));
+    }
+    if with_rejects {
+        for k in 0..case.rejects.get(case.messages.len()).copied().unwrap_or(0) {
+            v.push((0, format!("{DROP}rejected last.{k}")));
+        }
+    }
+    (v, case.yields_after)
+}
+fn scripted(items: Vec<(u8, String)>, after: u8) -> Scripted<String> {
+    Scripted { items: items.into(), yielded: 0, after }
+}
+async fn produce(mut q: ohkami::util::stream::impls::Queue<String>, items: Vec<(u8, String)>, after: u8) {
+    for (y, m) in items {
+        YieldN(y).await;
+        q.push(m);
+    }
+    YieldN(after).await;
+}
+
+fn current() -> Case {
+    CURRENT.with(|c| c.borrow().clone()).expect("harness: no current case")
+}
+
 async fn handler() -> DataStream<String> {
-    let case = CURRENT.with(|c| c.borrow().clone()).expect("harness: no current case");
-    if case.kind % 2 == 0 {
-        DataStream::new(move |mut s| async move {
-            for (i, m) in case.messages.iter().enumerate() {
-                YieldN(case.yields_before.get(i).copied().unwrap_or(0)).await;
-                s.send(m.clone());
+    use ohkami::util::{stream, StreamExt};
+    let case = current();
+    match case.kind % 8 {
+        0 => {
+            let (it, after) = items(&case, false);
+            DataStream::new(move |mut s| async move {
+                for (y, m) in it {
+                    YieldN(y).await;
+                    s.send(m);
+                }
+                YieldN(after).await;
+            })
+        }
+        1 => {
+            let (it, after) = items(&case, false);
+            DataStream::from(scripted(it, after))
+        }
+        2 => {
+            let (it, after) = items(&case, true);
+            DataStream::from(stream::queue(move |q| produce(q, it, after)).filter(|m: &String| !rejected(m)))
+        }
+        3 => {
+            let (it, after) = items(&case, true);
+            DataStream::from(scripted(it, after).filter(|m: &String| !rejected(m)))
+        }
+        4 => {
+            // first half from a hand-written stream, second half from a queue, chained
+            let (mut it, after) = items(&case, false);
+            let second = it.split_off(it.len() / 2);
+            DataStream::from(scripted(it, 0).chain(stream::queue(move |q| produce(q, second, after))))
+        }
+        7 => {
+            let (mut it, after) = items(&case, false);
+            if it.is_empty() {
+                DataStream::from(scripted(it, after))
+            } else {
+                let (_, first) = it.remove(0);
+                DataStream::from(stream::once(first).chain(scripted(it, after)))
             }
-            YieldN(case.yields_after).await;
+        }
+        _ => unreachable!("kinds 5 and 6 have routes of their own"),
+    }
+}
+/// kind 5: a stream of the application's own message type
+async fn handler_typed() -> DataStream<Msg> {
+    let case = current();
+    let (it, after) = items(&case, false);
+    if case.yields_after % 2 == 0 {
+        DataStream::new(move |mut s| async move {
+            for (y, m) in it {
+                YieldN(y).await;
+                s.send(Msg(m));
+            }
+            YieldN(after).await;
         })
     } else {
-        DataStream::from(Scripted { case, next: 0, yielded: 0, after: 0 })
+        DataStream::from(Scripted { items: it.into_iter().map(|(y, m)| (y, Msg(m))).collect(), yielded: 0, after })
+    }
+}
+/// kind 6: a response the handler builds itself (`with_stream` / `set_stream_raw`)
+async fn handler_response() -> Response {
+    let case = current();
+    let (it, after) = items(&case, false);
+    if case.yields_after % 2 == 0 {
+        Response::OK().with_stream(Scripted { items: it.into_iter().map(|(y, m)| (y, Msg(m))).collect(), yielded: 0, after })
+    } else {
+        let mut res = Response::Created();
+        res.set_stream_raw(Box::pin(scripted(it, after)));
+        res.status = Status::OK;
+        res
     }
 }
 
@@ -113,7 +228,7 @@ fn message() -> impl Strategy<Value = String> {
 impl Property for C17 {
     type Case = Case;
     const ID: &'static str = "C17";
-    const RULE: &'static str = "generated: 0–12 messages over all Unicode with \"\", LF, CR, CRLF, leading spaces and data:/event:/id:/: look-alikes over-represented × a producer schedule (0–3 Pending polls before each push, 0–3 after the last; bursts; completion with a non-empty queue) × two producer kinds (queue handle of DataStream::new, a hand-written Stream through DataStream::from). The handler's stream is sent through the real router and serializer on the harness's own executor, so the schedule is exactly the script. Oracle: independent response parser → strict chunk decoder (cross-checked with the chunked_transfer crate) → independent WHATWG event-stream parser: the data payloads equal the messages with CRLF/CR/LF normalised to LF, in order; no other field, event type or id appears; the stream ends with the zero chunk. Non-trivial = ≥ 2 messages with a yield between two pushes, or a message containing a line break; distinct by case.";
+    const RULE: &'static str = "generated: 0–12 messages over all Unicode with \"\", LF, CR, CRLF, leading spaces and data:/event:/id:/: look-alikes over-represented × a producer schedule (0–3 Pending polls before each push, 0–3 after the last; bursts; completion with a non-empty queue) × eight producer kinds (queue handle of DataStream::new; a hand-written Stream through DataStream::from; either behind StreamExt::filter with 0–2 rejected items between the messages and after the last; hand-written.chain(queue); once(..).chain(..); a stream of the application's own sse::Data type; a Response the handler builds with with_stream / set_stream_raw). The handler's stream is sent through the real router and serializer on the harness's own executor, so the schedule is exactly the script. Oracle: independent response parser → strict chunk decoder (cross-checked with the chunked_transfer crate) → independent WHATWG event-stream parser: the data payloads equal the messages with CRLF/CR/LF normalised to LF, in order; no other field, event type or id appears; the stream ends with the zero chunk. Non-trivial = ≥ 2 messages with a yield between two pushes, or a message containing a line break; distinct by case.";
     const ASSUMPTIONS: &'static [&'static str] = &[
         "messages contain no NUL (the event-stream format cannot carry it in ids; data is unaffected but kept out for clarity)",
         "a quarter of the cases write into a sink that accepts only 1–100 bytes per write call; what arrives must be the same stream",
@@ -124,6 +239,8 @@ impl Property for C17 {
         drive::freeze_clock();
         let mut o = Ohkami::new(());
         Routing::<()>::apply("/sse".GET(handler), &mut o);
+        Routing::<()>::apply("/sse-typed".GET(handler_typed), &mut o);
+        Routing::<()>::apply("/sse-response".GET(handler_response), &mut o);
         C17 { router: VerifRouter::new(o) }
     }
     fn n_cases(&self, tier: Tier) -> u64 {
@@ -133,11 +250,11 @@ impl Property for C17 {
         5000
     }
     fn in_domain(&self, case: &Case) -> bool {
-        case.messages.iter().all(|m| !m.contains('\0')) && case.yields_before.iter().all(|y| *y <= 8) && case.yields_after <= 8
+        case.messages.iter().all(|m| !m.contains('\0')) && case.yields_before.iter().all(|y| *y <= 8) && case.yields_after <= 8 && case.rejects.iter().all(|r| *r <= 4)
     }
     fn strategy(&self, _tier: Tier) -> BoxedStrategy<Case> {
-        (vec(message(), 0..=12), vec(prop_oneof![3 => Just(0u8), 2 => Just(1u8), 1 => 2u8..4], 12), 0u8..4, 0u8..2, prop::option::weighted(0.25, prop_oneof![1u16..=8, 9u16..=100]))
-            .prop_map(|(messages, yields_before, yields_after, kind, short_write)| Case { messages: messages.into_iter().map(|m| m.replace('\0', "")).collect(), yields_before, yields_after, kind, short_write })
+        (vec(message(), 0..=12), vec(prop_oneof![3 => Just(0u8), 2 => Just(1u8), 1 => 2u8..4], 12), 0u8..4, prop_oneof![2 => Just(0u8), 2 => Just(1u8), 6 => 2u8..8], prop::option::weighted(0.25, prop_oneof![1u16..=8, 9u16..=100]), vec(prop_oneof![3 => Just(0u8), 2 => Just(1u8), 1 => Just(2u8)], 13))
+            .prop_map(|(messages, yields_before, yields_after, kind, short_write, rejects)| Case { messages: messages.into_iter().map(|m| m.replace('\0', "")).collect(), yields_before, yields_after, kind, short_write, rejects: if kind == 2 || kind == 3 { rejects } else { Vec::new() } })
             .boxed()
     }
 
@@ -155,13 +272,18 @@ impl Property for C17 {
         if case.messages.iter().any(|m| m.contains('\r') && !m.replace("\r\n", "").contains('\r')) {
             obs.label("crlf-only")
         }
-        obs.label(if case.kind % 2 == 0 { "queue-handle" } else { "custom-stream" });
+        obs.label(["queue-handle", "custom-stream", "queue+filter", "custom-stream+filter", "chain", "own-data-type", "handler-built-response", "once+chain"][case.kind as usize % 8]);
         CURRENT.with(|c| *c.borrow_mut() = Some(case.clone()));
         if case.short_write.is_some() {
             obs.label("short-writes")
         }
         let before = drive::set_write_limit(case.short_write.map(|n| n as usize));
-        let ran = drive::request(&self.router, "GET", "/sse", &[("Host".into(), "t".into())], None);
+        let route = match case.kind % 8 {
+            5 => "/sse-typed",
+            6 => "/sse-response",
+            _ => "/sse",
+        };
+        let ran = drive::request(&self.router, "GET", route, &[("Host".into(), "t".into())], None);
         drive::set_write_limit(before);
         let o = match ran {
             Ok(o) => o,
